@@ -589,15 +589,19 @@ type retained struct {
 	open    bool
 }
 
-func runE2(c *fw.Ctx, codec string, comp []int, mode int, poolBound int, order int) {
+func runE2(c *fw.Ctx, codec string, comp []int, mode int, poolBound int, order int, enc int) {
 	ds := recDatums(order)
 	sc := filedrv.SchemaCase{Name: "Rec", Schema: recSchema, Type: reflect.TypeOf(Rec{})}
-	f := filedrv.Build(sc, codec, comp, ds)
-	f.Name += fmt.Sprintf("/order%d", order)
+	// enc: how the (reference) writer lays out arrays and maps — one plain block; size-prefixed blocks; one
+	// size-prefixed block per item
+	pol := []func(string, int) int{nil, filedrv.SizedBlocks, filedrv.SizedItemBlocks}[enc]
+	f := filedrv.BuildEnc(sc, codec, comp, ds, [16]byte{0xde, 0xad, 0xbe, 0xef, 0x10, 0x32, 0x54, 0x76, 0x98, 0xba, 0xdc, 0xfe, 0x01, 0x23, 0x45, 0x67}, pol)
+	f.Name += fmt.Sprintf("/order%d/collections-%s", order, []string{"plain", "sized-blocks", "sized-block-per-item"}[enc])
 	locus := "file|" + codec
 	var execs, points int64
 	obs := map[string]bool{}
-	st := explore.Run(poolBound, 0, func(ch *explore.Chooser) {
+	violations := 0
+	st := explore.RunUntil(poolBound, 150000, func(ch *explore.Chooser) {
 		c.Begin(locus, f.Name)
 		zzvsync.ResetPools()
 		zzvsync.SetPoolChooser(func(label string, n int) int { return ch.Choose(label, n) })
@@ -697,12 +701,16 @@ func runE2(c *fw.Ctx, codec string, comp []int, mode int, poolBound int, order i
 		det := map[string]interface{}{"file": f.Name, "choices": fmt.Sprint(ch.Taken), "labels": fmt.Sprint(ch.Labels)}
 		switch {
 		case pan != nil:
+			violations++
 			c.Violation("panic:"+fw.PanicClass(pan)+"@"+site+"|"+locus, fmt.Sprintf("panic %v — %s", pan, desc), det)
 		case err != nil:
+			violations++
 			c.Violation("read-error|"+locus, fmt.Sprintf("ReadFile failed: %v — %s", err, desc), det)
 		case idx != len(ds):
+			violations++
 			c.Violation("wrong-record-count|"+locus, fmt.Sprintf("%d records delivered, %d in the file — %s", idx, len(ds), desc), det)
 		case fail != "":
+			violations++
 			c.Violation(failSig+"|"+locus, fail+" — "+desc, det)
 		}
 	}, func(ch *explore.Chooser, i int, alt int) int {
@@ -710,7 +718,10 @@ func runE2(c *fw.Ctx, codec string, comp []int, mode int, poolBound int, order i
 			return 1
 		}
 		return 0
-	})
+	}, func() bool { return violations >= 20 || c.Expired() })
+	if st.Capped {
+		c.NotExhaustive(fmt.Sprintf("exploration of %s stopped after %d executions (%d violations recorded)", f.Name, st.Executions, violations))
+	}
 	c.Eval(execs)
 	c.NontrivialN(int64(len(obs)))
 	c.Count("file_executions", execs)
@@ -816,7 +827,15 @@ func tasks(tier string) []task {
 			for mode := 0; mode < 2; mode++ {
 				for order := 0; order < 3; order++ {
 					codec, comp, mode, order := codec, comp, mode, order
-					ts = append(ts, task{fmt.Sprintf("file %s %v %s order %d", codec, comp, filedrv.ModeName(mode), order), func(c *fw.Ctx) { runE2(c, codec, comp, mode, poolBound, order) }})
+					ts = append(ts, task{fmt.Sprintf("file %s %v %s order %d", codec, comp, filedrv.ModeName(mode), order), func(c *fw.Ctx) { runE2(c, codec, comp, mode, poolBound, order, 0) }})
+					if mode == 0 && (tier == "thorough" || order != 1) {
+						enc := 1 + (len(ts)+order)%2
+						if tier == "thorough" {
+							ts = append(ts, task{fmt.Sprintf("file %s %v order %d sized blocks", codec, comp, order), func(c *fw.Ctx) { runE2(c, codec, comp, mode, poolBound, order, 1) }})
+							enc = 2
+						}
+						ts = append(ts, task{fmt.Sprintf("file %s %v order %d collections layout %d", codec, comp, order, enc), func(c *fw.Ctx) { runE2(c, codec, comp, mode, poolBound, order, enc) }})
+					}
 				}
 			}
 		}
@@ -838,7 +857,7 @@ func init() {
 			if tier == "thorough" {
 				depth, banks, pb = 7, 3, 3
 			}
-			return fmt.Sprintf("built with the sync→zzvsync overlay so that sync.Pool recycling is an explored choice. (E1) explicit-state BFS over sequences (depth %d) of real ResourceBank/ReadBuf operations {alloc(int64), alloc(struct with pointer and string), 17×alloc (arena growth), ToString/NextAsString of 2 and 300 bytes (string store regrowth), Close(bank i), ExtractResourceBank with Pool.Get answer ∈ {new, each of the 2 most recently pooled banks}, recycle (the ReadBuf's bank goes through Close and the pool and comes back)} over the ReadBuf's bank and <=%d extracted banks; successor = replay on a fresh world + one operation; canonical state = per physical bank (role, fill levels, high-water classes) and pool order; shadow-heap model: after EVERY step a new allocation must be all-zero and disjoint (address ranges) from every live allocation and string of every open bank, and every live allocation and string must still hold its pattern. (E2) ReadFile over 4-record files (strings, bytes, slices, maps of strings / longs / records, pointers to long and to a record — map values and pointer targets of the same types — a **long and a *map; the spare capacity of every delivered []byte is overwritten by the callback (as an append would) and a collection runs in every 40th execution (clobberfree); an all-empty record as third or as second of the four; or four records that repeat one string in every string position) × 3 codecs × 4 block partitions × 2 reader modes, with the callback's retention policy (keep / close own bank / close the bank of any earlier open record) explored exhaustively and Pool.Get answers with <=%d deviations: every retained shallow copy whose bank is open must equal the deep copy taken at delivery, at every later callback, at the end, and again after a second ReadFile (whose banks are closed at once) has run; (E3) what delivered time.Time values SHOW (zone name, offset, String, Format) for RFC 3339 strings with five unusual offsets in five blocks must be unchanged after the rest of the file has been read; distinct_nontrivial = distinct histories / choice vectors checked", depth, banks, pb)
+			return fmt.Sprintf("built with the sync→zzvsync overlay so that sync.Pool recycling is an explored choice. (E1) explicit-state BFS over sequences (depth %d) of real ResourceBank/ReadBuf operations {alloc(int64), alloc(struct with pointer and string), 17×alloc (arena growth), ToString/NextAsString of 2 and 300 bytes (string store regrowth), Close(bank i), ExtractResourceBank with Pool.Get answer ∈ {new, each of the 2 most recently pooled banks}, recycle (the ReadBuf's bank goes through Close and the pool and comes back)} over the ReadBuf's bank and <=%d extracted banks; successor = replay on a fresh world + one operation; canonical state = per physical bank (role, fill levels, high-water classes) and pool order; shadow-heap model: after EVERY step a new allocation must be all-zero and disjoint (address ranges) from every live allocation and string of every open bank, and every live allocation and string must still hold its pattern. (E2) ReadFile over 4-record files (strings, bytes, slices, maps of strings / longs / records, pointers to long and to a record — map values and pointer targets of the same types — a **long and a *map; the spare capacity of every delivered []byte is overwritten by the callback (as an append would) and a collection runs in every 40th execution (clobberfree); an all-empty record as third or as second of the four; or four records that repeat one string in every string position) × 3 codecs × 4 block partitions × 2 reader modes — and again with the file's arrays and maps laid out in byte-size-prefixed blocks / one size-prefixed block per item (forms the library's own writer never produces) — with the callback's retention policy (keep / close own bank / close the bank of any earlier open record) explored exhaustively and Pool.Get answers with <=%d deviations: every retained shallow copy whose bank is open must equal the deep copy taken at delivery, at every later callback, at the end, and again after a second ReadFile (whose banks are closed at once) has run; (E3) what delivered time.Time values SHOW (zone name, offset, String, Format) for RFC 3339 strings with five unusual offsets in five blocks must be unchanged after the rest of the file has been read; distinct_nontrivial = distinct histories / choice vectors checked", depth, banks, pb)
 		},
 		Assumptions: []string{
 			"double Close of one bank and use after Close are API misuse and excluded from the alphabet",
